@@ -7,6 +7,7 @@ import (
 	"sort"
 	"strings"
 	"sync"
+	"sync/atomic"
 	"time"
 
 	"verif/core"
@@ -283,7 +284,14 @@ func handleTL1(c *core.Ctx, st *stats, lang int) func(d *drv, raws []json.RawMes
 
 // runMC runs one TLC enumeration and feeds the emitted cases to a pool of drivers.
 func runMC(c *core.Ctx, d *drv, label string, o core.TLCOpts, handle func(d *drv, raws []json.RawMessage) error) (*core.TLCResult, error) {
-	p, err := newPool(c, d, 3, 200, handle)
+	var busy int64
+	timed := func(d *drv, raws []json.RawMessage) error {
+		t := time.Now()
+		err := handle(d, raws)
+		atomic.AddInt64(&busy, int64(time.Since(t)))
+		return err
+	}
+	p, err := newPool(c, d, 3, 200, timed)
 	if err != nil {
 		return nil, err
 	}
@@ -300,7 +308,7 @@ func runMC(c *core.Ctx, d *drv, label string, o core.TLCOpts, handle func(d *drv
 	if perr != nil {
 		return res, perr
 	}
-	c.Logf("%s: %d distinct states, %d generated, %d cases emitted, %.1fs", label, res.Distinct, res.Generated, res.NEmits, time.Since(t0).Seconds())
+	c.Logf("%s: %d distinct states, %d generated, %d cases emitted, %.1fs (TLC %.1fs, replay busy %.1fs over 3 drivers)", label, res.Distinct, res.Generated, res.NEmits, time.Since(t0).Seconds(), res.Wall.Seconds(), time.Duration(atomic.LoadInt64(&busy)).Seconds())
 	c.Add("states", res.Distinct)
 	c.Add("transitions", res.Generated)
 	c.Add("cases_"+label, res.NEmits)
@@ -324,9 +332,26 @@ func tokOpts(maxToks int, coreOnly bool, prune bool, emitEvery int) core.TLCOpts
 		Consts: (mcParams{Mode: "tok", MaxToks: maxToks, TokSel: sel, Prune: prune, EmitEvery: emitEvery}).consts()}
 }
 
-func deriveOpts(maxW, maxCombs, mutW int, sem bool) core.TLCOpts {
-	return core.TLCOpts{Module: "MC_TLDerive", Cfg: "MC_TLDerive.cfg", Timeout: 14 * time.Minute, HeapMB: 6144,
-		Consts: (mcParams{MaxW: maxW, MaxCombs: maxCombs, MutW: mutW, Sem: sem}).consts()}
+func deriveOpts(maxW, maxCombs, mutW int, sem bool, layouts []int) core.TLCOpts {
+	m := (mcParams{MaxW: maxW, MaxCombs: maxCombs, MutW: mutW, Sem: sem}).consts()
+	ls := make([]string, len(layouts))
+	for i, l := range layouts {
+		ls[i] = fmt.Sprint(l)
+	}
+	m["LAYOUTS"] = "{" + strings.Join(ls, ", ") + "}"
+	return core.TLCOpts{Module: "MC_TLDerive", Cfg: "MC_TLDerive.cfg", Timeout: 14 * time.Minute, HeapMB: 6144, Consts: m}
+}
+
+const nLayouts = 7
+
+// layoutsFor: the thorough tier applies all layouts; the quick tier the plain one and two chosen by the seed
+// (seeds 1..3 together cover all of them).
+func layoutsFor(c *core.Ctx) []int {
+	if c.Thorough() {
+		return []int{1, 2, 3, 4, 5, 6, 7}
+	}
+	k := int((c.Seed%3 + 3) % 3)
+	return []int{1, 2 + k, 5 + k}
 }
 
 // replayTL1 re-evaluates the case stored in a replay file.
@@ -410,7 +435,7 @@ func runC19(c *core.Ctx) error {
 		}
 	}
 	// (iii) derived sentences (accepted, AST of the derivation) and their mutation neighbours
-	if _, err := runMC(c, d, "derived+mutants", deriveOpts(c.Pick(3, 4), 1, c.Pick(3, 4), false), h); err != nil {
+	if _, err := runMC(c, d, "derived+mutants", deriveOpts(c.Pick(3, 4), 1, c.Pick(3, 4), false, layoutsFor(c)), h); err != nil {
 		return err
 	}
 	// (iv) token soups (random walks of the token-string model)
@@ -520,25 +545,49 @@ func runDerived(c *core.Ctx, st *stats, traceModuleAspects string) error {
 		return replayTL1(c, d, st)
 	}
 	h := handleTL1(c, st, 1)
-	if _, err := runMC(c, d, "derived", deriveOpts(c.Pick(4, 5), 1, 0, false), h); err != nil {
-		return err
+	// three independent activities run side by side (each TLC run gets a share of the workers)
+	w := workers(c)/2 + 1
+	errs := make(chan error, 3)
+	go func() {
+		o := deriveOpts(c.Pick(4, 5), 1, 0, false, layoutsFor(c))
+		o.Workers = w
+		_, err := runMC(c, d, "derived", o, h)
+		errs <- err
+	}()
+	go func() {
+		d2, err := d.fresh()
+		if err != nil {
+			errs <- err
+			return
+		}
+		defer d2.Close()
+		o := deriveOpts(c.Pick(3, 4), 2, 0, false, layoutsFor(c))
+		o.Workers = w
+		_, err = runMC(c, d2, "derived_2_combinators", o, h)
+		errs <- err
+	}()
+	go func() {
+		// code -> spec: random schemas and the repository schemas, parsed by the real parser,
+		// validated by TLC against Canon / Print / ListingLine of the specification
+		d3, err := d.fresh()
+		if err != nil {
+			errs <- err
+			return
+		}
+		defer d3.Close()
+		errs <- traceTL1(c, d3, st)
+	}()
+	var first error
+	for i := 0; i < 3; i++ {
+		if err := <-errs; err != nil && first == nil {
+			first = err
+		}
 	}
-	if c.Thorough() {
-		if _, err := runMC(c, d, "derived_2_combinators", deriveOpts(4, 2, 0, false), h); err != nil {
-			return err
-		}
-	} else {
-		if _, err := runMC(c, d, "derived_2_combinators", deriveOpts(3, 2, 0, false), h); err != nil {
-			return err
-		}
+	if first != nil {
+		return first
 	}
 	if st.byPhase["laid"] == 0 || st.accepted == 0 {
 		return fmt.Errorf("vacuous: no derived sentence was accepted")
-	}
-	// code -> spec: random schemas and the repository schemas, parsed by the real parser,
-	// validated by TLC against Canon / Print / ListingLine of the specification
-	if err := traceTL1(c, d, st); err != nil {
-		return err
 	}
 	_ = finishStats(c, st)
 	return nil
@@ -595,7 +644,7 @@ func lowerNamesOf(v any, set map[string]bool) {
 func traceTL1(c *core.Ctx, d *drv, st *stats) error {
 	tr := c.Scratch + "/tl1-trace.ndjson"
 	var reply map[string]any
-	n := c.Pick(3000, 30000)
+	n := c.Pick(2000, 30000)
 	if err := d.p.Call(map[string]any{"op": "randtrace1", "count": n, "seed": c.Seed, "out": tr}, &reply); err != nil {
 		return err
 	}
@@ -615,6 +664,7 @@ func traceTL1(c *core.Ctx, d *drv, st *stats) error {
 	}
 	var extra strings.Builder
 	nrepo := 0
+	seenRepo := map[string]bool{}
 	for _, f := range files {
 		b, err := os.ReadFile(f)
 		if err != nil {
@@ -630,6 +680,13 @@ func traceTL1(c *core.Ctx, d *drv, st *stats) error {
 			}
 		}
 		for _, e := range evs {
+			var ev struct{ Canon, Print, Listing string }
+			_ = json.Unmarshal(e, &ev)
+			k := ev.Canon + "|" + ev.Print + "|" + ev.Listing
+			if seenRepo[k] { // the repository holds many copies of the same combinators
+				continue
+			}
+			seenRepo[k] = true
 			extra.Write(e)
 			extra.WriteByte('\n')
 			nrepo++
@@ -720,7 +777,15 @@ func firstDiff(a, b []any) string {
 
 // validateTrace1 runs TraceTLSyntax over recorded events; the CRC over the validated canonical text is compared here.
 func validateTrace1(c *core.Ctx, d *drv, st *stats, tb []byte, selftest bool) error {
-	lines := strings.Split(strings.TrimSpace(string(tb)), "\n")
+	var lines []string
+	seen := map[string]bool{}
+	for _, l := range strings.Split(strings.TrimSpace(string(tb)), "\n") {
+		if !seen[l] { // identical events (copies of a schema in the repository) are validated once
+			seen[l] = true
+			lines = append(lines, l)
+		}
+	}
+	tb = []byte(strings.Join(lines, "\n") + "\n")
 	names := map[string]bool{}
 	ncomb, nrej := 0, 0
 	for _, l := range lines {
@@ -807,8 +872,15 @@ func validateTrace1(c *core.Ctx, d *drv, st *stats, tb []byte, selftest bool) er
 		s, _ := e[field].(string)
 		e[field] = strings.Replace(s, "=", "= ", 1)
 		b, _ := json.Marshal(e)
-		cp := append([]string{}, lines...)
-		cp[i] = string(b)
+		lo, hi := i-10, i+10
+		if lo < 0 {
+			lo = 0
+		}
+		if hi > len(lines) {
+			hi = len(lines)
+		}
+		cp := append([]string{}, lines[lo:hi]...)
+		cp[i-lo] = string(b)
 		r2, err := run([]byte(strings.Join(cp, "\n") + "\n"))
 		if err != nil {
 			return err
